@@ -1,0 +1,174 @@
+//! Path map / path recorder hooks (path_map.rs, the recorder blocks of de.rs, lib.rs).
+//!
+//! Add-only wrappers: build a `PathMap` from explicit entries and run the crate-private
+//! `PathMap::search`; run a deserialization with the `PathRecorder` attached and dump what it
+//! recorded; resolve validation paths of a returned `Error` through the real `search`.
+use crate::path_map::{PathKey, PathMap};
+use crate::{Error, Location, Locations, Options};
+use serde::de::DeserializeOwned;
+
+/// One path segment as seen from outside: `index == true` for a sequence index (the name is the
+/// decimal rendering of `n`), otherwise a mapping key called `name`.
+#[derive(Clone, Debug, PartialEq, Eq, PartialOrd, Ord, Hash)]
+pub enum Seg {
+    Key(String),
+    Index(usize),
+}
+
+/// Segment as read back from a recorded `PathKey` (`true` = index segment).
+pub type OutSeg = (bool, String);
+
+fn key_of(path: &[Seg]) -> PathKey {
+    let mut k = PathKey::empty();
+    for s in path {
+        k = match s {
+            Seg::Key(name) => k.join(name.as_str()),
+            Seg::Index(n) => k.join(*n),
+        };
+    }
+    k
+}
+
+/// Read the segments of a `PathKey` back through its crate-visible API only
+/// (`len`, `truncate`, `leaf_string`, `join`, `==`).
+fn segs_of(key: &PathKey) -> Vec<OutSeg> {
+    let mut out = Vec::with_capacity(key.len());
+    let mut rebuilt = PathKey::empty();
+    for i in 0..key.len() {
+        let prefix = key.truncate(i + 1);
+        let name = prefix.leaf_string().unwrap_or_default();
+        let as_key = rebuilt.clone().join(name.as_str());
+        let is_index = as_key != prefix;
+        out.push((is_index, name));
+        rebuilt = prefix;
+    }
+    out
+}
+
+/// Result of a `search`: reference (line, column), defined (line, column), resolved leaf.
+pub type Found = ((u64, u64), (u64, u64), String);
+
+fn found_of(r: Option<(Locations, String)>) -> Option<Found> {
+    r.map(|(l, leaf)| {
+        (
+            (l.reference_location.line(), l.reference_location.column()),
+            (l.defined_location.line(), l.defined_location.column()),
+            leaf,
+        )
+    })
+}
+
+/// Build a `PathMap` by inserting `entries` in the given order (entry `i` gets
+/// `reference = (ref_line, ref_col)`, `defined = (def_line, def_col)`) and run `search(query)`.
+pub fn build_and_search(
+    entries: &[(Vec<Seg>, (usize, usize), (usize, usize))],
+    query: &[Seg],
+) -> Option<Found> {
+    let mut m = PathMap::new();
+    for (path, r, d) in entries {
+        m.insert(
+            key_of(path),
+            Locations {
+                reference_location: Location::new(r.0, r.1),
+                defined_location: Location::new(d.0, d.1),
+            },
+        );
+    }
+    found_of(m.search(&key_of(query)))
+}
+
+/// Number of distinct keys after inserting `entries` (HashMap semantics: later wins).
+pub fn build_len(entries: &[Vec<Seg>]) -> usize {
+    let mut m = PathMap::new();
+    for path in entries {
+        m.insert(key_of(path), Locations::UNKNOWN);
+    }
+    m.map.len()
+}
+
+/// Run the real `search` on a map carried by an error (or returned by [`record`]).
+pub fn search_in(map: &PathMap, query: &[Seg]) -> Option<Found> {
+    found_of(map.search(&key_of(query)))
+}
+
+/// Sorted dump of a map: (segments, reference location, defined location).
+pub fn dump(map: &PathMap) -> Vec<(Vec<OutSeg>, Location, Location)> {
+    let mut v: Vec<(Vec<OutSeg>, Location, Location)> = map
+        .map
+        .iter()
+        .map(|(k, l)| (segs_of(k), l.reference_location, l.defined_location))
+        .collect();
+    v.sort_by(|a, b| a.0.cmp(&b.0));
+    v
+}
+
+/// Render segments like the crate does (`a.b[0].c`, `<root>` for the empty path).
+pub fn render(segs: &[OutSeg]) -> String {
+    let mut out = String::new();
+    for (i, (is_index, name)) in segs.iter().enumerate() {
+        if *is_index {
+            out.push('[');
+            out.push_str(name);
+            out.push(']');
+        } else {
+            if i > 0 {
+                out.push('.');
+            }
+            out.push_str(name);
+        }
+    }
+    if out.is_empty() { "<root>".to_owned() } else { out }
+}
+
+/// Recorded state after a deserialization with the recorder attached.
+pub struct Recorded<T> {
+    pub value: T,
+    /// `recorder.current` after the top-level call returned (must be the empty path).
+    pub current_after: Vec<OutSeg>,
+    pub map: PathMap,
+}
+
+/// `from_str_with_options_and_path_recorder` (the function every `*_valid` / `*_validate`
+/// string entry point starts with).
+pub fn record<T: DeserializeOwned>(input: &str, options: Options) -> Result<Recorded<T>, Error> {
+    let (value, recorder) = crate::from_str_with_options_and_path_recorder::<T>(input, options)?;
+    Ok(Recorded {
+        value,
+        current_after: segs_of(&recorder.current),
+        map: recorder.map,
+    })
+}
+
+/// The paths a garde report refers to, in report order, converted exactly as the crate does
+/// (`path_key_from_garde`).
+#[cfg(feature = "garde")]
+pub fn garde_issue_paths(report: &garde::Report) -> Vec<Vec<OutSeg>> {
+    report
+        .iter()
+        .map(|(p, _)| segs_of(&crate::path_map::path_key_from_garde(p)))
+        .collect()
+}
+
+/// Resolve every path of a garde report through the real `search` of `map`.
+#[cfg(feature = "garde")]
+pub fn garde_resolve(report: &garde::Report, map: &PathMap) -> Vec<(Vec<OutSeg>, Option<Found>)> {
+    report
+        .iter()
+        .map(|(p, _)| {
+            let k = crate::path_map::path_key_from_garde(p);
+            (segs_of(&k), found_of(map.search(&k)))
+        })
+        .collect()
+}
+
+/// Resolve every issue of a validator error tree (`collect_validator_issues`) through `search`.
+#[cfg(feature = "validator")]
+pub fn validator_resolve(
+    errors: &validator::ValidationErrors,
+    map: &PathMap,
+) -> Vec<(Vec<OutSeg>, Option<Found>)> {
+    crate::de_error::collect_validator_issues(errors)
+        .into_iter()
+        .map(|issue| (segs_of(&issue.path), found_of(map.search(&issue.path))))
+        .collect()
+}
